@@ -430,3 +430,72 @@ def run(ctx):
             n_set += 1
             ctx.ob("R-C16.6", ap, "option-%s-reaches-tree-config" % name, ok, "Config::%s(our_config.%s)" % (setter, name) if ok else "option %s is not handed to lsm_tree::Config::%s (got %s): the tree would run with a default" % (name, setter, got))
         ctx.floor("R-C16.6", "options handed to the tree config", n_set, 13)
+
+
+def cross(ctx, D):
+    """thorough tier: cross-check the reviewed table of strategy keys / widths against the pinned lsm-tree's own
+    `get_config` implementations (D = fact base of lsm_tree). Structure only: key literals and encoded widths."""
+    F = ctx.F
+    frm = F.fns.get(FROM)
+    if frm is None:
+        return
+    # reader side (as in R-C16.2)
+    rwidth = {}
+    for fn in [frm] + F.closures_of(FROM):
+        fog = ctx.og(fn)
+        for b, t in fn.calls():
+            if A.cname(t) != "meta_keyspace::MetaKeyspace::get_kv_for_config":
+                continue
+            ls = lits(fog.of_operand(t["args"][2]))
+            if len(ls) != 1 or ls[0] not in STRATEGY_KEYS:
+                continue
+            site = (fn.id, b)
+            for bb, tt in fn.calls():
+                if not tt["args"] or not any(x.k == "call" and x.site == site for a in tt["args"] for x in A.walk(fog.of_operand(a))):
+                    continue
+                m = C.PRIM.search(A.cname(tt)) or C.PRIM.search(tt.get("callee") or "")
+                if m and m.group(1) == "read":
+                    rwidth[ls[0]] = "1byte" if m.group(2) == "u8" else m.group(2) + C.endian(tt)
+                    break
+                if (tt.get("callee") or "").startswith("std::cmp::PartialEq::"):
+                    rwidth[ls[0]] = "1byte"
+                    break
+    wwidth = {}
+    for fid, fn in D.fns.items():
+        if not fid.endswith("CompactionStrategy>::get_config") or fn.kind == "closure":
+            continue
+        og = A.Origins(fn)
+        for blk in fn.blocks:
+            if blk["cleanup"]:
+                continue
+            for st in blk["s"]:
+                rv = st["rv"]
+                if rv["k"] == "agg" and rv.get("tuple") and len(rv["ops"]) == 2:
+                    k = lits(og.of_operand(rv["ops"][0]))
+                    if len(k) != 1:
+                        continue
+                    v = og.of_operand(rv["ops"][1])
+                    w = None
+                    for x in A.walk(v):
+                        name = x.a[0] if x.k == "call" else (x.a if x.k == "fnitem" else "")
+                        m = re.search(r"impl (u8|u16|u32|u64|f32|f64)>::to_(le|be)_bytes$", name or "")
+                        if m:
+                            w = "1byte" if m.group(1) == "u8" else m.group(1) + m.group(2)
+                    if w is None:
+                        alts = A.alternatives(v)
+                        if alts and all(a.k == "agg" and a.a[0] == "(tuple)" and len(a.a[1]) == 1 for a in alts):
+                            w = "1byte"
+                    if w is None and any(x.k == "call" and x.a[0].endswith("Vec::<T>::new") for x in A.walk(v)):
+                        # built incrementally: first primitive write decides
+                        seqs = C.sequences(D, fn, [0], "w")
+                        firsts = {C.shape(q)[0] for q in seqs if q}
+                        if firsts == {"u8"}:
+                            w = "1byte"
+                    wwidth[k[0]] = w
+    ctx.ob("R-C16.2x", "<lsm_tree get_config>", "strategy-key-table-matches-dependency", set(wwidth) == STRATEGY_KEYS,
+           "lsm-tree's Leveled/Fifo::get_config emit exactly the keys of the reviewed table: %s" % sorted(wwidth) if set(wwidth) == STRATEGY_KEYS
+           else "reviewed strategy key table %s differs from what the pinned lsm-tree emits %s" % (sorted(STRATEGY_KEYS), sorted(wwidth)))
+    for k in sorted(set(wwidth) & set(rwidth)):
+        ok = wwidth[k] is not None and wwidth[k] == rwidth[k]
+        ctx.ob("R-C16.2x", frm, "width-%s-vs-lsm-tree" % k, ok, "\"%s\": lsm-tree writes %s, from_kvs reads %s" % (k, wwidth[k], rwidth[k]) if ok
+               else "\"%s\" is written by lsm-tree as %s but read by from_kvs as %s" % (k, wwidth[k], rwidth[k]))
